@@ -116,3 +116,11 @@ claim('C11', 'c09_conf.c',
       'without reaching system()/popen()/fork(); spifconf_find_file with PATH_MAX scaled to 24 stays inside its buffers for file/dir/path lengths around the limit whatever access()/stat() answer; '
       'spiftool_temp_file calls mkstemp under umask 077, restores the umask, sets mode 0600 and terminates the returned name; two init/use/free cycles touch no freed state.',
       'DESIGN.md section 4, C11')
+claim('C08', 'c08_opts.c',
+      'CBMC bounded differential check of spifopt_parse against an ideal reading of the command line: token sequences, table variant and pass settings as shapes; boolean masks, flag words and integer targets symbolic',
+      'For every argument vector of up to the stated number of words over a 31-token alphabet (every spelling the property names, plus unknown options, missing values, a lone dash, '
+      'quoted words in an argument list), three option tables (with/without short forms, different pre-parse sets) and the four pass/removal settings, the solver shows for all '
+      '2^32 values of each boolean mask and all initial contents of the targets that every target ends with the value of the ideal reading and nothing else changes, options of the other '
+      'pass are left alone, argv after removal is the program name plus the plain words in order, NULL-terminated, parsing terminates (unwinding assertion on the main loop) and no access '
+      'leaves argv, the exact-size words, the table or the parser\'s own allocations.',
+      'DESIGN.md section 4, C08')
